@@ -23,6 +23,9 @@ Lines1 == {[form |-> "money_lit", x |-> O(q, c)] : q \in Lits, c \in Rated}
      \cup {[form |-> "money_conv", x |-> O(q, a), target |-> b] : q \in Amounts, a \in Rated, b \in Rated}
      \cup {[form |-> "money_arith", l |-> O(QInt(10), a), op |-> o, r |-> O(Q(5, 2), b)] : a \in XCurs, b \in XCurs, o \in {"+", "-", "/"}}
      \cup {[form |-> "money_arith", l |-> O(QInt(-10), a), op |-> o, r |-> O(n, "")] : a \in XCurs, o \in {"*", "/"}, n \in {Zero, QInt(4), Q(-5, 2)}}
+     \* every ordered pair of rated currencies (currencies that share a symbol, e.g. $ or kr, are distinct currencies)
+     \cup {[form |-> "money_arith", l |-> O(QInt(10), a), op |-> "+", r |-> O(QInt(10), b)] : a \in Rated, b \in Rated}
+     \cup {[form |-> "money_arith", l |-> O(QInt(10), p[1]), op |-> "/", r |-> O(QInt(4), p[2])] : p \in {q \in Rated \X Rated : q[1] # q[2] /\ (q[1] \in XCurs \/ q[2] \in XCurs)}}
 LinesX == {[form |-> "money_conv", x |-> O(q, a), target |-> b] : q \in Amounts \cup {Zero, QInt(-4)}, a \in XCurs, b \in XCurs}
      \cup {[form |-> "money_arith", l |-> O(QInt(10), a), op |-> o, r |-> O(Q(5, 2), b)] : a \in XCurs, b \in XCurs, o \in {"+", "-", "/"}}
 
